@@ -5,11 +5,11 @@ from rules import util
 from symex import show
 
 
-def ctor_field_roles(ctx, fn, adt, param_roles, extra=None):
+def ctor_field_roles(ctx, fn, adt, param_roles, extra=None, engine="api"):
     """analyse constructor `fn`: every aggregate of `adt` built there; returns
     {field index: role} where an operand that is (canonically) parameter j gets
     param_roles[j]; `extra(canon_term)` may name other operands."""
-    se = ctx.api.run(fn)
+    se = getattr(ctx, engine).run(fn)
     if se is None:
         return None
     roles = {}
